@@ -3,7 +3,9 @@
    relation angle_with / dot / IPF use is LEFT multiplication by group
    operations (O ~ g*O). *)
 From Coq Require Import Reals ZArith List Bool.
-From Verif Require Import Scalar RInst Quat QuatAlg SymDot SymDotR ZoneModel ZoneProofs CrossProofs.
+From Coq Require Import QArith String.
+From Verif Require Import Scalar RInst KField KtoR Quat QuatAlg GroupK Groups SymDot SymDotR SymDotK ZoneModel ZoneProofs CrossProofs
+  CoverCheck CoverSound SectorCertsAll SectorDomain.
 Import ListNotations.
 Local Open Scope R_scope.
 
@@ -24,6 +26,25 @@ Theorem C06_left_equivalents_same_orbit_direction : forall (g O1 : quat) (v : ve
   qrot ROps (qmul ROps g O1) v = qrot ROps g (qrot ROps O1 v).
 Proof. exact left_equivalent_direction. Qed.
 Print Assumptions C06_left_equivalents_same_orbit_direction.
+
+(* ... and that projection exists for the sectors the code builds: for each of the 70 certified subjects (C07), an
+   orientation O and an equivalent g * O give, for any sample direction v, crystal directions with ONE representative
+   strictly inside the fundamental sector -- whichever operations r, s bring them there.  Hence the same sector
+   direction, and the same IPF colour (a function of that direction, C08), off the sector boundary. *)
+Theorem C06_equivalent_orientations_same_sector_direction : forall sc, In sc (List.concat all_sector_certs) ->
+  forall (O1 : quat) (v : vec3) g r s, qnorm2 ROps O1 = 1 ->
+  In g (sc_ops sc) -> In r (sc_ops sc) -> In s (sc_ops sc) ->
+  (forall n, In n (sc_N sc) -> 0 < vdot ROps (vtoR n) (ract ROps (rtoR r) (qrot ROps O1 v))) ->
+  (forall n, In n (sc_N sc) -> 0 < vdot ROps (vtoR n) (ract ROps (rtoR s) (ract ROps (rmul ROps (rtoR g) (O1, false)) v))) ->
+  ract ROps (rtoR s) (ract ROps (rmul ROps (rtoR g) (O1, false)) v) = ract ROps (rtoR r) (qrot ROps O1 v).
+Proof.
+  intros sc Hsc O1 v g r s HO Hg Hr Hs Or Os.
+  destruct (sc_group_facts sc Hsc) as [Hu _]. pose proof (kunit_sound _ g Hu Hg) as Ug.
+  assert (E : ract ROps (rmul ROps (rtoR g) (O1, false)) v = ract ROps (rtoR g) (qrot ROps O1 v)).
+  { rewrite ract_mul by assumption. reflexivity. }
+  rewrite E in Os |- *. exact (sector_representative_unique sc Hsc (qrot ROps O1 v) g r s Hg Hr Hs Or Os).
+Qed.
+Print Assumptions C06_equivalent_orientations_same_sector_direction.
 
 (* the symmetry-reduced-zone representative of an orientation is O*g: the
    symmetry is multiplied on the RIGHT (faithful model of the loop with Gl = C1) *)
@@ -48,10 +69,9 @@ Theorem C06_reduction_side_refuted :
 Proof. exact right_multiple_not_equivalent_refuted. Qed.
 Print Assumptions C06_reduction_side_refuted.
 
-(* PARTIAL: the Euler-fundamental-region representative (special rotations
-   and primary axis order per proper group name) and the agreement of the
-   sector directions / IPF colours are checked by the cross-method oracle for
-   all 38 groups, not by a theorem. *)
+(* PARTIAL: the Euler-fundamental-region representative (special rotations and primary axis order per proper group
+   name) is checked by the cross-method oracle for all 38 groups, not by a theorem; that the PROJECTION lands strictly
+   inside the sector (the hypothesis of the theorem above) is the oracle-only clause of C07. *)
 
 Example C06_nonvacuous : In ((0, 1, 0, 0), false) G222 /\ qnorm2 ROps (4/5, 0, 3/5, 0) = 1.
 Proof. split; [right; left; reflexivity | unfold qnorm2; rsimpl; field]. Qed.
